@@ -16,6 +16,7 @@ type CExpr struct {
 	Op   string
 	Args []*CExpr
 	Vars []QVar
+	Pats []*CExpr // quantifier trigger (one multi-pattern)
 	Src  string
 }
 
@@ -46,7 +47,8 @@ func (t *CType) String() string {
 }
 
 type Clause struct {
-	Label string
+	Label   string
+	Assumed bool // label starts with "assumed": exported to callers, not checked (listed as an assumption)
 	E     *CExpr
 	Src   string
 }
@@ -83,6 +85,7 @@ type FuncContract struct {
 	Lets     []LetDef
 	Witnesses []WitnessDef // ghost results: witness name = expr @retN
 	Uses     []string
+	Abstract []string // spec functions treated as uninterpreted (over the heaps they read) in this function
 	Checks   []AnchoredAssert // return-time assertions over locals (not exported to callers)
 	Pure     bool // assume func: result is a function of args only (deterministic)
 	Asserts  []AnchoredAssert
@@ -153,7 +156,7 @@ type ContractFile struct {
 var directiveKW = map[string]bool{
 	"func": true, "assume": true, "spec": true, "ghost": true, "lemma": true, "pure": true,
 	"global": true, "model": true, "requires": true, "ensures": true, "assigns": true,
-	"loop": true, "inline": true, "results": true, "trusted": true, "reads": true,
+	"loop": true, "inline": true, "abstract": true, "results": true, "trusted": true, "reads": true,
 	"induction": true, "let": true, "axiom": true, "deterministic": true, "trigger": true,
 	"assert": true, "use": true, "check": true, "witness": true,
 }
@@ -383,6 +386,14 @@ func parseContractFile(path, pkg string) (*ContractFile, error) {
 				for _, f := range strings.Split(d.text, ",") {
 					cur.Uses = append(cur.Uses, strings.TrimSpace(f))
 				}
+			case "abstract":
+				if cur == nil {
+					perr = fail(d, "abstract outside func")
+					return
+				}
+				for _, f := range strings.Split(d.text, ",") {
+					cur.Abstract = append(cur.Abstract, strings.TrimSpace(f))
+				}
 			case "inline":
 				if cur == nil {
 					perr = fail(d, "inline outside func")
@@ -439,7 +450,7 @@ func parseClause(text string) Clause {
 		label = strings.TrimSpace(text[1:k])
 		text = strings.TrimSpace(text[k+1:])
 	}
-	return Clause{Label: label, E: parseExprString(text), Src: text}
+	return Clause{Label: label, Assumed: strings.HasPrefix(label, "assumed"), E: parseExprString(text), Src: text}
 }
 
 // ---------------------------------------------------------------------
@@ -649,6 +660,16 @@ func (l *lexer) parseQuant() *CExpr {
 			continue
 		}
 		break
+	}
+	if l.isOp("{") { // optional trigger: { t1, t2 } (one multi-pattern)
+		l.next()
+		for !l.isOp("}") {
+			q.Pats = append(q.Pats, l.parseExpr(0))
+			if l.isOp(",") {
+				l.next()
+			}
+		}
+		l.next()
 	}
 	l.expectOp("::")
 	q.Args = []*CExpr{l.parseExpr(0)}
